@@ -227,7 +227,7 @@ func init() {
 			return ms
 		},
 	},
-		"well-formed grammars weighted towards >=3-way ordered choices (nullable, lookahead-first, class/range-first, nested, reference-first alternatives; U+10FFFF allowed) x ~24-36 inputs x every entry that exists in all four parsers; the parsers generated with -inline, -switch and both are compared with the default parser on verdict, consumed prefix and token list. Non-trivial: the variant's emitted source contains a switch (resp. an inlined rule) and the reference run accepted a non-empty prefix or backtracked after consuming; distinct = (grammar, entry, input, option set).",
+		"well-formed grammars weighted towards >=3-way ordered choices built as first-character dispatch (in front of the leading character: lookahead, optional/repeated elements incl. subsets of the leading class, nullable and mixed nested choices, nullable rule references, recursive references, captures, actions; wide siblings; the nested-group idiom; U+10FFFF and edge ranges allowed) x ~24-36 inputs x every entry that exists in all four parsers; the parsers generated with -inline, -switch and both are compared with the default parser on verdict, consumed prefix and token list. Non-trivial: the variant's emitted source contains a switch (resp. an inlined rule) and the reference run accepted a non-empty prefix or backtracked after consuming; distinct = (grammar, entry, input, option set).",
 		[]string{"a rule inlined away has no entry point by design and is skipped as entry", "packages that fail to generate or compile are C08's violations and are only counted here"})
 
 	// ------------------------------------------------------------------ C03
@@ -295,7 +295,7 @@ func init() {
 			return ms
 		},
 	},
-		"well-formed grammars weighted towards shared prefixes with captures/actions inside failing branches and lookahead x accepted inputs x every entry; Tokens() of the default parser (token buffer Size unset, 0, 1 and 32768) is compared with the post-order derivation record of the reference interpreter (names, rune offsets). Non-trivial: the reference run completed records that were later discarded (backtracking, abandoned iteration, lookahead), or a multi-byte rune was consumed; distinct = (grammar, entry, input).",
+		"well-formed grammars weighted towards shared prefixes with captures/actions inside failing branches and lookahead, capture-only backtrack points, capture-then-fail alternatives, the memo-splice and until idioms x accepted inputs (ranked by discarded capture tokens) x every entry; Tokens() of the default parser (token buffer Size unset, 0, 1 and 32768; also of a second Parse without Reset after a rejected one) is compared with the post-order derivation record of the reference interpreter (names, rune offsets). Non-trivial: the reference run completed records that were later discarded (backtracking, abandoned iteration, lookahead), or a multi-byte rune was consumed; distinct = (grammar, entry, input).",
 		[]string{"action tokens are named Action<K> with K the textual index of the action (the observable rule-name table)"})
 
 	// ------------------------------------------------------------------ C04
@@ -533,7 +533,7 @@ func init() {
 			return ms
 		},
 	},
-		"well-formed grammars without state-changing predicates, weighted towards shared prefixes and lookahead followed by consumption x ~24-40 inputs x every entry; the same compiled parser (default options, and -inline -switch) is run with Init() and Init(DisableMemoize()); verdict, tokens and on failure the error token must be equal (and equal to the reference). Requests to the memo-free parser are gated by the reference step count. Non-trivial: the reference run entered some (rule, offset) at least twice; distinct = (grammar, entry, input, option set).",
+		"well-formed grammars without state-changing predicates, weighted towards shared prefixes and lookahead followed by consumption x ~24-40 inputs x every entry; the same compiled parser (default options, and -inline -switch) is run with Init() and Init(DisableMemoize()); verdict, tokens and on failure the error token must be equal (and equal to the reference); additionally all inputs of a grammar are run in order on ONE reused instance per memo mode and must equal the fresh observations, and after a rejected parse a second Parse without Reset must agree between the memo modes and with a fresh parse. Requests to the memo-free parser are gated by the reference step count. Non-trivial: the reference run entered some (rule, offset) at least twice; distinct = (grammar, entry, input, option set).",
 		[]string{"PEG without memoisation is exponential on some grammars: points whose reference run needs more than the step gate run only memoised (counted)"})
 
 	// ------------------------------------------------------------------ C07
@@ -664,7 +664,7 @@ func init() {
 			return ms
 		},
 	},
-		"well-formed grammars weighted towards newlines and multi-byte runes in terminals x ~28-40 inputs (incl. empty input, failures at offset 0 and at end of input) x every entry, with Pretty off and on; for rejected inputs the error's token must be the first non-empty record that reached the furthest end during the attempt (reference attempt log) and lie within the input; the message is parsed and its name, 1-based line/symbol of begin and end, and quoted text are compared with the reference line/column model. Non-trivial: rejected input with a non-empty error token; distinct = (grammar, entry, input).",
+		"well-formed grammars weighted towards newlines and multi-byte runes in terminals x ~28-40 inputs (incl. empty input, failures at offset 0 and at end of input) x every entry, with Pretty off and on, and in order on one reused instance; for rejected inputs the error's token must be the first non-empty record that reached the furthest end during the attempt (reference attempt log) and lie within the input; the message is parsed and its name, 1-based line/symbol of begin and end, and quoted text are compared with the reference line/column model. Non-trivial: rejected input with a non-empty error token; distinct = (grammar, entry, input).",
 		[]string{"for an offset that sits on a newline rune both (line, lastcol+1) and (line+1, 0) are accepted (the statement does not settle that case); its use is counted"})
 
 	// ------------------------------------------------------------------ C13
